@@ -666,6 +666,31 @@ pub fn formula_outside_parser(rng: &mut Rng, rule: Option<Rule>) -> F {
     let c = cfg(rng);
     let depth = rng.below(2);
     let mut f = redex(rng, &c, depth, rule);
+    // 15 %: one quantifier block loses all its variables (`exists () F`: the grammar demands `variable+`;
+    // no rewrite of CLASSIC produces such a block and INTUITIONISTIC removes its own at once; audit 2, B16)
+    if rng.chance(15) {
+        fn blocks_mut<'a>(f: &'a mut F, out: &mut Vec<&'a mut Vec<fol::Variable>>) {
+            match f {
+                F::AtomicFormula(_) => {}
+                F::UnaryFormula { formula, .. } => blocks_mut(formula, out),
+                F::BinaryFormula { lhs, rhs, .. } => {
+                    blocks_mut(lhs, out);
+                    blocks_mut(rhs, out);
+                }
+                F::QuantifiedFormula { quantification, formula } => {
+                    out.push(&mut quantification.variables);
+                    blocks_mut(formula, out);
+                }
+            }
+        }
+        let mut bs = vec![];
+        blocks_mut(&mut f, &mut bs);
+        if !bs.is_empty() {
+            let k = rng.below(bs.len());
+            bs[k].clear();
+            return f;
+        }
+    }
     if rng.chance(75) {
         let mut cs = vec![];
         comparisons_mut(&mut f, &mut cs);
